@@ -24,7 +24,7 @@ def universes(tier, seed):
         out.append((f"F3c[{seed % 64}/64]", [("idx", 3, i) for i in U.shard(U.F3_indices(True), seed, 64)], "all", 0))
     else:
         out.append(("I3", [("i3", i) for i in range(1444)], "all", 0))
-        out.append((f"F3c[{seed % 4}/4]", [("idx", 3, i) for i in U.shard(U.F3_indices(True), seed, 4)], "all", 0))
+        out.append((f"F3c[{seed % 8}/8]", [("idx", 3, i) for i in U.shard(U.F3_indices(True), seed, 8)], "all", 0))
         out.append((f"F3c[{seed % 64}/64]", [("idx", 3, i) for i in U.shard(U.F3_indices(True), seed, 64)], "all", 1))
     return out
 
